@@ -150,6 +150,9 @@ def _c16_harnesses():
     for sc in _scheds(2):
         hs.append(H("c16_interleave2_" + "".join(map(str, sc)), TR,
                     timeout=(400, 3600), bounds="2 channels (fixed distinct ids), 60-byte 2-packet messages with all payload bytes, schedule %s" % (sc,)))
+    for sc in _scheds(2):
+        hs.append(H("c16_interleave2init_" + "".join(map(str, sc)), TR,
+                    timeout=(400, 3600), bounds="as above with channel 1 sending CTAPHID_INIT (command 0x06), schedule %s" % (sc,)))
     for sc in _scheds(3):
         hs.append(H("c16_interleave3_" + "".join(map(str, sc)), TR, tier="thorough",
                     bounds="3 channels, 2-packet messages with all payload bytes, schedule %s" % (sc,)))
@@ -623,3 +626,7 @@ PROPS["C11"]["functions"] += ["E2: passkey-client Client::register::{closure#0} 
 PROPS["C11"]["explanation"] += (" E2 (client): in Client::register the credProps outputs are computed from the store's own get_info answer and from the very rk value (map_rk's result) that "
                                 "was sent to the authenticator; replayed natively over 3 store capabilities x 5 resident-key requests x 3 user-verification requests with credProps requested.")
 PROPS["C19"]["explanation"] += (" Registrations: make_credential reports success only after an accepted save_credential call (one atomic step through the wrappers).")
+
+# round 6
+PROPS["C02"]["e2"] = PROPS["C02"]["e2"] + ["store_writes"]
+PROPS["C02"]["explanation"] += " Shipped stores: save_credential adds the credential and removes nothing (\"exactly one credential is added\")."
